@@ -235,8 +235,9 @@ def restChars (s : String) : String := String.ofList (s.toList.drop 1)
 /-- one candidate year of the loop of `ListSolarFromBaZiBySectAndBaseYear` -/
 def baZiYear (A : Astro) (yearGz monthGz dayGz timeGz : String) (sect baseYear : Int) (m : Int) (hours : List Int) (y : Int) :
     Option (List Solar) :=
-  -- jieQiTable of NewLunarFromYmd(y, 1, 1)
-  match Lunar.fromYmdHms A y 1 1 0 0 0 with
+  -- jieQiTable of NewSolarFromYmd(y, 1, 1).GetLunar(): the term table of CIVIL year y (after fix ad2a43f; before it the code took
+  -- NewLunarFromYmd(y, 1, 1), whose table is the previous civil year's when lunar 1/1 falls before 1 January: years 16 and 19)
+  match Lunar.fromSolar A ⟨y, 1, 1, 0, 0, 0⟩ with
   | none => none
   | some l0 =>
     let solarTime := termByName l0.terms (calendar.JIE_QI_IN_USE.getD (4 + m).toNat "")
